@@ -489,4 +489,77 @@ def run(prog: Program, col: Collector, tier: str, refs: Optional[Refs] = None, c
     # binary rules over aligned operands (Binary(op, Align, Align) and the tensor rules) keep the operand order: shared with C02
     from . import algebra
     algebra.r_binary_rule_operand_order(prog, col, refs, cat, "R19.11")
+    col.rule("R19.12", "a method of Tensor that rebuilds a Tensor from self.data hands the dtype on", floor=5)
+    _dtype_handed_on(prog, col, refs)
+    col.rule("R19.13", "Contraction.align returns the term-wise aligned result only when its inputs are the requested names; in every other case the lazy Align", floor=1)
+    _contraction_align_fallback(prog, col, refs)
     return col
+
+
+def _dtype_handed_on(prog: Program, col: Collector, refs: Refs):
+    """Layout operations (align, eager_subs, materialize, new_arange, clamp_finite, eager_unary, eager_reduce) rebuild a Tensor from
+    `self.data`; the constructor's dtype defaults to "real", so a call with two arguments silently turns a Bint[n]-valued tensor into a
+    real-valued one.  `_sample` is exempt: what it builds from the logits are log-weights, real whatever the dtype (1 frozen exception)."""
+    n = 0
+    for f in prog.funcs.values():
+        if f.cls is None or not f.fq.startswith("funsor.tensor::Tensor.") or isinstance(f.node, ast.Lambda) or f.name in ("_sample", "__init__"):
+            continue
+        derived = set()
+        for _ in range(4):
+            for st in walk_no_nested(f.node):
+                if isinstance(st, ast.Assign):
+                    src = any((isinstance(y, ast.Attribute) and y.attr == "data" and isinstance(y.value, ast.Name) and y.value.id == "self")
+                              or (isinstance(y, ast.Name) and y.id in derived) for y in ast.walk(st.value))
+                    if src:
+                        derived |= {y.id for t in st.targets for y in ast.walk(t) if isinstance(y, ast.Name)}
+        for c in walk_no_nested(f.node):
+            if not (isinstance(c, ast.Call) and isinstance(c.func, ast.Name) and c.func.id == "Tensor" and c.args):
+                continue
+            a0 = c.args[0]
+            from_self = any((isinstance(y, ast.Attribute) and y.attr == "data" and isinstance(y.value, ast.Name) and y.value.id == "self")
+                            or (isinstance(y, ast.Name) and y.id in derived) for y in ast.walk(a0))
+            if not from_self:
+                continue
+            n += 1
+            has = len(c.args) >= 3 or any(k.arg == "dtype" for k in c.keywords) or any(k.arg is None for k in c.keywords)
+            col.check(has, f"{f.fq}::{norm(c)[:50]}", "a dtype is passed",
+                      f"`{norm(c)[:50]}` rebuilds a Tensor from self.data without a dtype: the constructor's default is \"real\", so a Bint[n]-valued tensor comes back "
+                      "real-valued from a pure change of layout (the value at every named point changes domain; to_data / to_funsor round trips return another dtype)", f.loc(c))
+    col.cur.analysed["tensors_rebuilt_from_self_data"] = n
+
+
+def _contraction_align_fallback(prog: Program, col: Collector, refs: Refs):
+    f = require_func(prog, "funsor.cnf::Contraction.align")
+    construct = f"{f.fq}::fallback"
+    names = f.positional[1] if len(f.positional) > 1 else "names"
+    ifs = [a for a in walk_no_nested(f.node) if isinstance(a, ast.If)
+           and any(isinstance(r, ast.Return) and isinstance(r.value, ast.Call) and (refs.resolve(r.value.func) or norm(r.value.func)).endswith("Align") for r in a.body)]
+    direct = [r for r in walk_no_nested(f.node) if isinstance(r, ast.Return) and r.value is not None
+              and not (isinstance(r.value, ast.Call) and (refs.resolve(r.value.func) or norm(r.value.func)).endswith("Align"))]
+    if not direct:
+        col.check(True, construct, "every return is the lazy Align", "", f.loc())
+        return
+    if len(ifs) != 1:
+        col.unresolved(construct, f"expected one `if …: return Align(…)` in front of the direct return, found {len(ifs)}", f.loc())
+        return
+
+    def is_mismatch(t):
+        # names != tuple(X.inputs)  /  not names == tuple(X.inputs)  (either operand order)
+        neg = False
+        if isinstance(t, ast.UnaryOp) and isinstance(t.op, ast.Not):
+            t, neg = t.operand, True
+        if not (isinstance(t, ast.Compare) and len(t.ops) == 1):
+            return False
+        if not ((neg and isinstance(t.ops[0], ast.Eq)) or (not neg and isinstance(t.ops[0], ast.NotEq))):
+            return False
+        sides = [norm(t.left), norm(t.comparators[0])]
+        other = [x for x in sides if x != names]
+        return names in sides and len(other) == 1 and other[0].startswith("tuple(") and ".inputs" in other[0]
+
+    t = ifs[0].test
+    disj = t.values if isinstance(t, ast.BoolOp) and isinstance(t.op, ast.Or) else [t]
+    ok = any(is_mismatch(d) for d in disj)
+    col.check(ok, construct, "the Align fallback is taken whenever the inputs of the term-wise result are not the requested names",
+              f"the lazy Align is returned only if `{norm(t)[:70]}`: that does not follow from `{names} != tuple(result.inputs)` alone, so a term-wise result whose inputs are "
+              "in another order than requested can be returned as if aligned (.inputs in the wrong order; to_data / binary alignment then read the data under the wrong names)",
+              f.loc(ifs[0]))
